@@ -795,8 +795,8 @@ class VTerm:
                 rows = max(1, -(-v // self.cell_px[1]))
             self.serial += 1
             dig = hashlib.sha1(raw).hexdigest()[:16]
-            self.placements.append(Placement(self.serial, "kitty", self.r, self.c, rows,
-                                             cols, z, dig, (s, v)))
+            self._add_placement(Placement(self.serial, "kitty", self.r, self.c, rows,
+                                          cols, z, dig, (s, v)))
             if keys.get("C", "0") != "1":
                 # cursor moves: right by cols, down by rows-1 (scrolling as needed)
                 for _ in range(rows - 1):
@@ -804,6 +804,16 @@ class VTerm:
                 self.c = min(self.cols - 1, self.c + cols)
             return
         self.err("kitty: unsupported action %r" % action)
+
+    def _add_placement(self, p):
+        if self.profile.name.lower() == "konsole":
+            # Konsole drops placements that a new one covers completely (the library
+            # relies on this: it never clears animation frames on Konsole)
+            self.placements = [q for q in self.placements
+                               if not (p.row <= q.row and p.col <= q.col
+                                       and q.row + q.rows <= p.row + p.rows
+                                       and q.col + q.cols <= p.col + p.cols)]
+        self.placements.append(p)
 
     def _respond_kitty(self, data):
         if self.reply is not None:
@@ -883,8 +893,8 @@ class VTerm:
         dig = hashlib.sha1(raw).hexdigest()[:16]
         self.serial += 1
         if mode == "placement":
-            self.placements.append(Placement(self.serial, "iterm2", self.r, self.c, h, w, 0,
-                                             dig, px))
+            self._add_placement(Placement(self.serial, "iterm2", self.r, self.c, h, w, 0,
+                                          dig, px))
             if keys.get("doNotMoveCursor") != "1":
                 for _ in range(h - 1):
                     self.linefeed()
